@@ -7,6 +7,17 @@ SERVER_IP = "fd00::1"
 CLIENT_IP = "fd00::2"
 PEER_IPS = ["fd00::10", "fd00::11", "fd00::12", "fd00::13"]
 ADV_IP = "fd00::66"
+
+_V6 = {"SERVER_IP": SERVER_IP, "CLIENT_IP": CLIENT_IP, "PEER_IPS": PEER_IPS, "ADV_IP": ADV_IP}
+_V4 = {"SERVER_IP": "::ffff:10.0.0.1", "CLIENT_IP": "::ffff:10.0.0.2",
+       "PEER_IPS": ["::ffff:10.0.1.%d" % (0x10 + i) for i in range(8)], "ADV_IP": "::ffff:10.0.0.66"}
+
+
+def set_family(v4):
+    """The runner calls this before every run: scenarios with "v4": true use IPv4-mapped addresses (the udp6 transport
+    serves IPv4 through its dual-stack socket).  Checks must read the addresses as `common.X` at run time."""
+    globals().update(_V4 if v4 else _V6)
+
 EPS = 1e-6
 TOL = 1e-9
 
